@@ -71,6 +71,12 @@ func corpus(w *lib.Writer) {
 	for _, t := range []int64{1000000000, 1735603200, 0} {
 		runCase(w, in{Kind: "strf", S: hx("%U %W"), T: t})
 	}
+	// hunt round 2: long numerals, inherited date fields
+	numCases(w, []byte("1"+strings.Repeat("0", 800)+"e-800"))
+	numCases(w, []byte(strings.Repeat("9", 850)+"e-850"))
+	runCase(w, in{Kind: "time", Tbl: []tfield{{Name: "year", Inh: true, Num: num(2001)}, {Name: "month", Inh: true, Num: num(9)}, {Name: "day", Inh: true, Num: num(9)},
+		{Name: "hour", Inh: true, Num: num(1)}, {Name: "min", Inh: true, Num: num(46)}, {Name: "sec", Inh: true, Num: num(40)}}})
+	runCase(w, in{Kind: "time", Tbl: []tfield{{Name: "year", Num: num(2001)}, {Name: "month", Num: num(9)}, {Name: "day", Num: num(9)}, {Name: "hour", Inh: true, Num: num(0)}}})
 	for _, t := range []int64{0, 86400 * 40, -1, 951782400, 951868799} {
 		runCase(w, in{Kind: "datet", T: t})
 	}
